@@ -221,6 +221,16 @@ func (r *runner) value(a *Arg, pt reflect.Type, inHole bool) reflect.Value {
 			return reflect.Zero(pt)
 		}
 		return conv(out[0].Interface())
+	case "scheme":
+		var sch *expr.SchemeExpr
+		if expr.Root != nil {
+			for _, x := range expr.Root.Schemes {
+				if x.SchemeName == a.S {
+					sch = x
+				}
+			}
+		}
+		return conv(sch)
 	case "strs":
 		return conv([]string{a.S})
 	case "rnd":
